@@ -43,7 +43,7 @@ PY
       hits="$hits $id(machinery-error)"
     fi
   done
-  git -C /repo checkout -- .
+  git -C /repo checkout -- . && git -C /repo clean -fdq -- src
   [ -z "$hits" ] && hits=" — none —"
   echo "| $name | $suite |$hits | $examples |" >> "$out"
   echo "$name: suite $suite; detected by:$hits"
